@@ -86,7 +86,7 @@ restore (const unsigned char *src, int err)
 }
 
 /* ---- operations --------------------------------------------------------------- */
-enum { K_R, K_RN, K_RA, K_STATIC, K_GENSALT, K_GENSALT_CRYPT, K_GENSALT_RN, K_SETKEY, K_ENCRYPT, K_CHECKSALT, K_XCRYPT, K_RA_D, K_RA_D_ALLOCFAIL };
+enum { K_R, K_RN, K_RA, K_STATIC, K_GENSALT, K_GENSALT_CRYPT, K_GENSALT_RN, K_SETKEY, K_ENCRYPT, K_CHECKSALT, K_XCRYPT, K_RA_D, K_RA_D_ALLOCFAIL, K_RA_D_BADREQ };
 struct op { int kind, obj, phrase, setting; char name[96]; char solo[CRYPT_OUTPUT_SIZE]; int solo_null; int solo_errclass; int request; int core; };
 static struct op ops[400];
 static int nops;
@@ -134,6 +134,7 @@ exec_op (const struct op *o, char *res, int *isnull, int *ec)
     case K_STATIC: r = crypt (P, S); break;
     case K_XCRYPT: r = o->obj ? p_fcrypt (P, S) : p_xcrypt (P, S); break;
     case K_RA_D:
+    case K_RA_D_BADREQ:
     case K_RA_D_ALLOCFAIL:
       {
         /* the handle's block is tracked through the allocator seam so that realloc's result can be followed */
@@ -262,6 +263,9 @@ mkops (void)
   /* a crypt_ra handle that starts undersized, with and without the allocator failing: a failed call must not change what the next one returns */
   addop (K_RA_D, 0, 0, 2, 2 * 2, "crypt_ra(D,P0,%s)", settings[2]);
   addop (K_RA_D_ALLOCFAIL, 0, 0, 2, 9000, "crypt_ra(D,P0,%s) while the allocator fails", settings[2]);
+  /* failing requests through the handle that crypt_ra has to allocate or replace first (same request numbers as the other entry points) */
+  for (int s = nvalid; s < nvalid + 3; s++)
+    addop (K_RA_D_BADREQ, 0, 0, s, 2 * nvalid + (s - nvalid), "crypt_ra(D,P0,%s)", settings[s]);
   /* compat names */
   addop (K_XCRYPT, 0, 0, 2, 2 * 2, "xcrypt(P0,%s)", settings[2]);
   addop (K_XCRYPT, 1, 0, 1, 1 * 2, "fcrypt(P0,%s)", settings[1]);
@@ -525,7 +529,8 @@ solo_results (void)
   /* entry points agree on the same request */
   for (int i = 0; i < nops; i++)
     for (int j = i + 1; j < nops; j++)
-      if (ops[i].request == ops[j].request && (ops[i].kind <= K_STATIC || ops[i].kind == K_XCRYPT) && (ops[j].kind <= K_STATIC || ops[j].kind == K_XCRYPT))
+      if (ops[i].request == ops[j].request && (ops[i].kind <= K_STATIC || ops[i].kind == K_XCRYPT || ops[i].kind == K_RA_D || ops[i].kind == K_RA_D_BADREQ)
+          && (ops[j].kind <= K_STATIC || ops[j].kind == K_XCRYPT || ops[j].kind == K_RA_D || ops[j].kind == K_RA_D_BADREQ))
         {
           int fi = ops[i].solo_null || ops[i].solo[0] == '*', fj = ops[j].solo_null || ops[j].solo[0] == '*';
           if (fi != fj || (!fi && strcmp (ops[i].solo, ops[j].solo)))
